@@ -336,6 +336,9 @@ func main() {
 		if _, ok := inner.(*multi); ok {
 			multiCtx = 1
 		}
+		if _, ok := inner.(*twins); ok {
+			multiCtx = 1
+		}
 		tm := 0
 		if timing {
 			tm = 1
